@@ -37,6 +37,21 @@ CHECKS = {
     },
 }
 
+CHECKS["C15"] = {
+    "technique": "deterministic simulation: seeded and exhaustively swept create/set/update/restart histories against a store reference model (refinement), invariants after every operation, process restarts as epochs",
+    "category": "exploration",
+    "text": "Random histories (<= 40 ops) and a bounded sweep of EVERY sequence of <= 4 (quick) / <= 5 (thorough) operations over an 8-operation alphabet (file, sibling, parent folder; create, set, update, restart) run through the real writer; after every operation: error behaviour (SpilException and byte-identical tree for create-existing, write-missing, no-path), star searches at every depth on FindInPaths (both configurations) and FindInAll equal the model's entity set (entity + path ancestors, nothing else), get_data of every alphabet Sid through a new Getter instance equals the overlay in call order, Sid.exists() equals the model; the same after restarts (new process). Sids sharing a sidecar (paths differing only by extension) are checked permissively.",
+    "ref": "DESIGN.md 5.3",
+    "note": TRUST,
+}
+CHECKS["C12"] = {
+    "technique": "deterministic simulation: seeded store histories (creates, restarts, cache-capacity and listing-order knobs) with derived-call consistency invariants and a reference existence model evaluated on every reached state",
+    "category": "exploration",
+    "text": "On every reached store state, for a sampled finder (FindInPaths local/server, FindInList, FindInAll) and search of the C07 family: exists == (find non-empty), find_one == first of find (empty Sid / None when empty), as_sid=False == strings of as_sid=True in order, positional == keyword; for sampled concrete Sids (existing, non-existing, prefixes, constant-backed levels, untyped): exists() == FindInAll membership == model, children() == model set of existing Sids whose parent is the Sid (leaf: none), siblings() == model set sharing the parent, and every file-system-backed existing Sid has an existing parent when the parent level has a source.",
+    "ref": "DESIGN.md 5.6",
+    "note": TRUST,
+}
+
 NOT_APPLICABLE = {
     "C01": "pure function of one string and the static template table; no history, storage, entropy or fault in it (cache effects on it are C13/C14's subject); deciding it is input generation, not simulation",
     "C02": "pure function of one Sid (constructors are deterministic re-encodings); nothing for a schedule or fault to act on",
